@@ -707,7 +707,10 @@ fn c12_pair(ctx: &Ctx, root: &Rng, k: usize, t: &T12, stats: &EntryStats, want_c
     let up = gen_user(&mut r, &cfg);
     let kbq: Vec<u8> = (0..80).map(|_| if r.chance(1, 10) { r.next() as u8 } else { 0x20 + r.below(0x5F) as u8 }).collect();
     let o = Opts { real: false, strict: r.chance(1, 8), frames: r.chance(1, 3), privileged: false, base_prio: *r.pick(&[0u16, 0, 0, 2]), kb: Some((kbq, false)) };
-    let pl = make_plan(&mut r, &up, &[], &o);
+    let mut pl = make_plan(&mut r, &up, &[], &o);
+    // privilege checks switched off in some pairs: the stack switch at OS entry must still follow the PSR
+    // (only with programs that stay in user mode and out of the OS's memory: no RTI, no access faults)
+    pl.st.ignore_priv = r.chance(1, 4) && matches!(cfg.fault, Fault::None | Fault::IllOp | Fault::BadFmt);
     let stv = pl.st.clone();
     let mut st_real = pl.st.clone(); st_real.real = true;
     let mut mv = build(&stv);
@@ -768,7 +771,7 @@ fn c12_pair(ctx: &Ctx, root: &Rng, k: usize, t: &T12, stats: &EntryStats, want_c
             for q in 0..6u8 { if mr.sim.reg_file[reg(q)] != mv.sim.reg_file[reg(q)] { bad.push(format!("R{q} {:?} vs {:?}", mr.sim.reg_file[reg(q)].verif_parts(), mv.sim.reg_file[reg(q)].verif_parts())); } }
             if let Some(a) = umem_eq(&mr, &mv) { bad.push(format!("user memory at {a:#06x}")); }
             if mv.sim.mem[mv.sim.pc].get() != HALT { bad.push("virtual PC not at the HALT".into()); }
-            if !bad.is_empty() { ctx.fail("C12", "halt_differs", format!("program {k}: HALT under real traps (real vs virtual): {}", bad.join("; ")), replay_of(&sr, &envs_r)); }
+            if !bad.is_empty() { ctx.fail("C12", "halt_differs", format!("program {k} (ignore_privilege={}): HALT under real traps (real vs virtual): {}", stv.ignore_priv, bad.join("; ")), replay_of(&sr, &envs_r)); }
         }
         EndK::Err(c) if exc_label(*c).is_some() => {
             t.excs[*c as usize].fetch_add(1, Relaxed);
@@ -808,6 +811,30 @@ fn c12_pair(ctx: &Ctx, root: &Rng, k: usize, t: &T12, stats: &EntryStats, want_c
         }
         match &rr { Some(Ok(())) => { if !ar.sim.hit_halt() { bad.push("real run() did not stop through the OS".to_string()); } } _ => bad.push("real run() failed".to_string()) }
         if dv != disp_v || dr != disp_r { bad.push("display output of run() differs from the stepped run".to_string()); }
+        // the same with the step budget that is exactly enough: the instruction that turns the clock off
+        // (or the virtual HALT) is the last one the budget allows
+        let total_r = mr.sim.instructions_run.wrapping_sub(st_real.instrs);
+        let total_v = mv.sim.instructions_run.wrapping_sub(stv.instrs) + if stop == EndK::Halt { 1 } else { 0 };
+        let mut er = build(&st_real);
+        let xr = crate::ctx::catch(|| er.sim.run_with_limit(total_r));
+        if !matches!(xr, Some(Ok(()))) || !er.sim.hit_halt() || er.sim.mcr().load(Relaxed) {
+            bad.push(format!("real run_with_limit({total_r}) (exactly the steps up to the clock turning off): result ok = {}, hit_halt() = {}, clock on = {}", matches!(xr, Some(Ok(()))), er.sim.hit_halt(), er.sim.mcr().load(Relaxed)));
+        }
+        if total_r > 1 {
+            let mut er = build(&st_real);
+            let xr = crate::ctx::catch(|| er.sim.run_with_limit(total_r - 1));
+            if !matches!(xr, Some(Ok(()))) || er.sim.hit_halt() { bad.push(format!("real run_with_limit({}) (one step short) reports a halt or fails", total_r - 1)); }
+        }
+        if stop == EndK::Halt {
+            let mut ev = build(&stv);
+            let xv = crate::ctx::catch(|| ev.sim.run_with_limit(total_v));
+            if !matches!(xv, Some(Ok(()))) || !ev.sim.hit_halt() { bad.push(format!("virtual run_with_limit({total_v}) (exactly the steps up to and including HALT) does not report a halt")); }
+            if total_v > 1 {
+                let mut ev = build(&stv);
+                let xv = crate::ctx::catch(|| ev.sim.run_with_limit(total_v - 1));
+                if !matches!(xv, Some(Ok(()))) || ev.sim.hit_halt() { bad.push(format!("virtual run_with_limit({}) (one step short of HALT) reports a halt or fails", total_v - 1)); }
+            }
+        }
         if !bad.is_empty() { ctx.fail("C12", "run_api_differs", format!("program {k}: {}", bad.join("; ")), replay_of(&sv, &envs)); }
     }
     let _ = stats;
